@@ -123,6 +123,7 @@ struct Exec {
   std::vector<std::pair<uintptr_t,size_t>> refused_unmaps; bool os_counts_recorded = false; bool ever_faulted = false;   // C07 (a refused map of a segment-map part leaves segments unregistered: mi_is_in_heap_region degrades by design)
   std::vector<Watch> watches; long purge_calls_seen = 0; long opt_purge_delay = 10, opt_purge_mult = 10; bool opt_purge_decommits = true; uintptr_t last_free_near_seg = 0;   // C18
   bool forced_abandon = false;  // target_segments_per_thread >= 2
+  bool strict_creep = false;    // C11: literal reading of "no growth from one repetition to the next" (replay of known finding F18)
   long td_regions_base = -1;    // C07: mappings of thread-metadata size that existed before the workload
   bool visit_abandoned_on = false;
   int expect_err = 0;            // error code the running misuse op is about to provoke (debug build: the case ends when it is delivered)
